@@ -290,6 +290,13 @@ class MassMatrixAdaptor(Adaptor):
             "samples": self.variance_estimator.samples,
         }
         state_dict.update(state_dict_estimator)
+        if self.variance_estimator2 is not None:
+            state_dict["estimator2"] = {
+                "mean": self.variance_estimator2._mean.tolist(),
+                "variance": self.variance_estimator2._variance.tolist(),
+                "samples": self.variance_estimator2.samples,
+            }
+        state_dict["values"] = [x.tolist() for x in self._values]
         return state_dict
 
     def load_state_dict(self, state_dict: dict[str, Any]) -> None:
@@ -299,8 +306,25 @@ class MassMatrixAdaptor(Adaptor):
             "dtype": self.variance_estimator._mean.dtype,
             "device": self.variance_estimator._mean.device,
         }
+        info2 = {
+            "dtype": self.variance_estimator._variance.dtype,
+            "device": self.variance_estimator._variance.device,
+        }
         self.variance_estimator._mean = torch.tensor(state_dict["mean"], **info)
-        self.variance_estimator._variance = torch.tensor(state_dict["variance"], **info)
+        self.variance_estimator._variance = torch.tensor(
+            state_dict["variance"], **info2
+        )
+        if self.variance_estimator2 is not None:
+            state2 = state_dict["estimator2"]
+            self.variance_estimator2.samples = state2["samples"]
+            self.variance_estimator2._mean = torch.tensor(state2["mean"], **info)
+            self.variance_estimator2._variance = torch.tensor(
+                state2["variance"], **info2
+            )
+        self._values = deque(
+            torch.tensor(x, dtype=self._parameters[0].dtype)
+            for x in state_dict["values"]
+        )
 
     @classmethod
     def from_json(cls, data, dic):
